@@ -68,10 +68,17 @@ type fctx struct {
 	pkg  *packages.Package
 	fn   *ast.FuncDecl
 	bind map[types.Object]Sketch
+	// function-typed parameters bound, when the function is inlined at a call site, to the callback passed there
+	bindFn map[types.Object]boundFn
+}
+
+type boundFn struct {
+	arg ast.Expr
+	fc  *fctx // the context the callback was written in
 }
 
 func newFctx(p *packages.Package, fn *ast.FuncDecl) *fctx {
-	return &fctx{pkg: p, fn: fn, bind: map[types.Object]Sketch{}}
+	return &fctx{pkg: p, fn: fn, bind: map[types.Object]Sketch{}, bindFn: map[types.Object]boundFn{}}
 }
 
 // atom functions: leaves of the evaluation, with the lexical class of their result
@@ -150,6 +157,28 @@ func (ev *tplEval) sprintf(fc *fctx, call *ast.CallExpr) Sketch {
 				default:
 					return Sketch{Alt{opts}}
 				}
+			}
+		}
+		// a local every definition of which is a constant string: one alternative per constant
+		if id := identOf(call.Args[0]); id != nil && fc.fn != nil && paramIndexDecl(info, fc.fn, objOf(info, id)) < 0 {
+			ds := defsIn(info, fc.fn, objOf(info, id))
+			var opts []Sketch
+			for _, d := range ds {
+				dtv := info.Types[d]
+				if dtv.Value == nil || dtv.Value.Kind() != constant.String {
+					opts = nil
+					break
+				}
+				lit := &ast.BasicLit{ValuePos: call.Args[0].Pos(), Kind: token.STRING, Value: strconv.Quote(constant.StringVal(dtv.Value))}
+				info.Types[lit] = types.TypeAndValue{Type: types.Typ[types.String], Value: dtv.Value}
+				opts = append(opts, ev.sprintf(fc, &ast.CallExpr{Fun: call.Fun, Lparen: call.Lparen, Args: append([]ast.Expr{lit}, call.Args[1:]...), Rparen: call.Rparen}))
+			}
+			switch len(opts) {
+			case 0:
+			case 1:
+				return opts[0]
+			default:
+				return Sketch{Alt{opts}}
 			}
 		}
 		return ev.unk(call, "dynamic format")
@@ -916,6 +945,9 @@ func (ev *tplEval) inline(fc *fctx, fi *FuncInfo, call *ast.CallExpr) Sketch {
 					if isStringType(obj.Type()) {
 						nfc.bind[obj] = ev.eval(fc, call.Args[i])
 					}
+					if _, isSig := obj.Type().Underlying().(*types.Signature); isSig {
+						nfc.bindFn[obj] = boundFn{call.Args[i], fc}
+					}
 				}
 				i++
 			}
@@ -1252,6 +1284,25 @@ func (ev *tplEval) callThroughParam(fc *fctx, id *ast.Ident, call *ast.CallExpr)
 	}
 	if _, isSig := obj.Type().Underlying().(*types.Signature); !isSig {
 		return nil, false
+	}
+	// inlined at a call site: the callback passed there, evaluated where it was written
+	if b, ok := fc.bindFn[obj]; ok && ev.depth < 6 {
+		switch a := ast.Unparen(b.arg).(type) {
+		case *ast.FuncLit:
+			if len(a.Body.List) == 1 {
+				if ret, ok := a.Body.List[0].(*ast.ReturnStmt); ok && len(ret.Results) == 1 {
+					return ev.eval(b.fc, ret.Results[0]), true
+				}
+			}
+		case *ast.Ident:
+			if pf, _ := b.fc.pkg.TypesInfo.Uses[a].(*types.Func); pf != nil && ev.w.Funcs[pf] != nil {
+				return ev.inline(fc, ev.w.Funcs[pf], call), true
+			}
+		case *ast.SelectorExpr:
+			if pf, _ := b.fc.pkg.TypesInfo.Uses[a.Sel].(*types.Func); pf != nil && ev.w.Funcs[pf] != nil {
+				return ev.inline(fc, ev.w.Funcs[pf], call), true
+			}
+		}
 	}
 	idx, i := -1, 0
 	for _, f := range fc.fn.Type.Params.List {
